@@ -117,6 +117,8 @@ class Runner:
                 continue
             if m[0] == 'raise' and m[1] in ('Unmodelled', 'OutOfFuel'):
                 ctx.histogram['unmodelled'] = ctx.histogram.get('unmodelled', 0) + 1
+                if len(ctx.extra.setdefault('unmodelled_calls', [])) < 30:
+                    ctx.extra['unmodelled_calls'].append([e, repr(a)])
             elif m != i:
                 ctx.divergence(dict(call=e, args=list(a)), i, m, 'Model/Addr.v = pycel.excelutil address API')
         self.calls = []
@@ -143,6 +145,122 @@ def _enum_full(case):
     return case.get('cls') == 'enum-full-span'
 
 
+# Inert until the coordinator lists the ids in known_findings.json: the implementation stores "no limit
+# on this axis" as the coordinate 0 and computes &, ** and `in` with it (extent 0..M-1 instead of 1..M), see
+# coq/Refuted/C11_unbounded.v.  While an id is not listed, the deviations of the unbounded-operand oracle are
+# only counted (histogram 'oracle:unbounded:deviation:*'); once listed they are reported as KNOWN-FINDING.
+@known_predicate('C11-unbounded-algebra')
+def _unbounded_algebra(case):
+    return case.get('cls') == 'unbounded-algebra'
+
+
+@known_predicate('C11-unbounded-abs-form')
+def _unbounded_abs_form(case):
+    return case.get('cls') == 'unbounded-abs-form'
+
+
+def soft_violation(ctx, fid, case, what, **kw):
+    """a deviation whose cause is the (reported, not yet listed) finding [fid]"""
+    if any(f.get('id') == fid and f.get('kind') == 'known' for f in ctx.findings):
+        ctx.violation(case, what, **kw)
+    else:
+        key = f'oracle:unbounded:deviation:{case.get("call")}'
+        ctx.histogram[key] = ctx.histogram.get(key, 0) + 1
+        ctx.extra.setdefault('unlisted_deviations', {}).setdefault(fid, dict(case=case, what=what, **kw))
+
+
+def unbounded_pool(rng, n):
+    """whole-column / whole-row ranges (0 = no limit), the forms & and ** produce from them, and bounded
+    rectangles that reach the last column / row of the sheet"""
+    cols = [(1, 3), (2, 4), (1, 1), (3, 3), (5, 9), (26, 27), (1, MAX_COL), (MAX_COL - 1, MAX_COL), (MAX_COL, MAX_COL)]
+    rows = [(2, 5), (3, 9), (1, 1), (5, 5), (10, 11), (1, MAX_ROW), (MAX_ROW - 1, MAX_ROW), (MAX_ROW, MAX_ROW)]
+    for _ in range(n):
+        a, b = sorted((rng.randrange(1, MAX_COL + 1), rng.randrange(1, MAX_COL + 1)))
+        cols.append((a, b))
+        a, b = sorted((rng.randrange(1, MAX_ROW + 1), rng.randrange(1, MAX_ROW + 1)))
+        rows.append((a, b))
+    unb = [(c1, 0, c2, 0) for c1, c2 in cols] + [(0, r1, 0, r2) for r1, r2 in rows]
+    produced = [(1, 0, 3, MAX_ROW - 1), (2, 0, 4, MAX_ROW), (0, 2, MAX_COL - 1, 5), (0, 3, MAX_COL, 9),
+                (0, 0, MAX_COL - 1, MAX_ROW - 1)]
+    edge = [(2, 1, 2, MAX_ROW), (2, 5, 3, MAX_ROW), (2, MAX_ROW, 2, MAX_ROW), (5, MAX_ROW, 5, MAX_ROW), (6, 1, 6, 1),
+            (1, 2, MAX_COL, 2), (MAX_COL, 3, MAX_COL, 3), (MAX_COL - 1, 2, MAX_COL, 7), (2, 2, 4, 5), (1, 1, 1, 1),
+            (3, 4, 3, 4), (1, 1, MAX_COL, MAX_ROW)]
+    return unb, produced, edge
+
+
+# R1C1 spellings: a component is bare, absolute or relative
+def comp_text(letter, k):
+    return letter + ('' if k is None else f'[{k[1]}]' if k[0] == 'rel' else str(k[1]))
+
+
+def comp_val(is_row, anchor, k):
+    ar, ac = anchor
+    if k is None:
+        return ar if is_row else ac
+    if k[0] == 'abs':
+        return k[1]
+    return (ar + k[1] - 1) % MAX_ROW + 1 if is_row else (ac + k[1] - 1) % MAX_COL + 1
+
+
+def a1like(item):
+    """(has digits,) when one side 'R..C..' is also letters[+digits] of the A1 grammar, else None"""
+    comps = [k for k in item if k != 'absent']
+    if any(k is not None and k[0] == 'rel' for k in comps):
+        return None
+    if len(comps) == 2 and comps[0] is not None:       # R<n>C... : a letter after the digits
+        return None
+    return (comps[-1] is not None,)
+
+
+def spelling_text(sp):
+    def item(row, col):
+        return ('' if row == 'absent' else comp_text('R', row)) + ('' if col == 'absent' else comp_text('C', col))
+    return ':'.join(item(*it) for it in sp)
+
+
+def spelling_unambiguous(sp):
+    likes = [a1like(it) for it in sp]
+    if len(sp) == 1:
+        return likes[0] is None or not likes[0][0]
+    return likes[0] is None or likes[1] is None or likes[0] != likes[1]
+
+
+def spelling_want(sp, anchor):
+    """(c1, r1, c2, r2) with 0 for an absent axis, by offset arithmetic from the anchor"""
+    def val(is_row, k):
+        return 0 if k == 'absent' else comp_val(is_row, anchor, k)
+    (r1, c1), (r2, c2) = sp[0], sp[-1]
+    return (val(False, c1), val(True, r1), val(False, c2), val(True, r2))
+
+
+def gen_spellings(rng, n):
+    def comp(mx):
+        t = rng.random()
+        if t < 0.3:
+            return None
+        if t < 0.55:
+            return ('abs', rng.choice([1, 2, 5, 7, mx - 1, mx, rng.randrange(1, mx + 1)]))
+        return ('rel', rng.choice([0, 1, -1, 2, -2, 3, mx, -mx, mx - 1, rng.randrange(-3 * mx, 3 * mx)]))
+    out = [[(None, ('rel', 1))], [(('rel', 2), None)], [(('abs', 5), ('rel', 1))], [(None, None)],
+           [(None, 'absent'), (('rel', 3), 'absent')], [('absent', None), ('absent', ('rel', 2))],
+           [('absent', ('abs', 2)), ('absent', ('rel', 1))], [(('rel', 1), 'absent'), (('rel', 3), 'absent')],
+           [(None, None), (('rel', 1), ('rel', 1))], [(None, 'absent'), (('abs', 3), 'absent')],
+           [(None, ('abs', 5))], [(('abs', 1), 'absent'), (('abs', 3), 'absent')],
+           [('absent', None), ('absent', None)], [(None, 'absent'), ('absent', None)],
+           [(None, None), (None, None)], [(None, None), (None, ('abs', 5))]]
+    for _ in range(n):
+        shape = rng.choice(['cell', 'cell', 'full', 'rows', 'cols'])
+        if shape == 'cell':
+            out.append([(comp(MAX_ROW), comp(MAX_COL))])
+        elif shape == 'full':
+            out.append([(comp(MAX_ROW), comp(MAX_COL)), (comp(MAX_ROW), comp(MAX_COL))])
+        elif shape == 'rows':
+            out.append([(comp(MAX_ROW), 'absent'), (comp(MAX_ROW), 'absent')])
+        else:
+            out.append([('absent', comp(MAX_COL)), ('absent', comp(MAX_COL))])
+    return out
+
+
 # ---------------------------------------------------------------------- run
 def run(ctx):
     ensure_impl_on_path()
@@ -157,7 +275,10 @@ def run(ctx):
         "names like A1/R1C1/TRUE, unicode, '!') plus illegal quoted-looking names for the correspondence; every "
         "printed form re-parsed; handcrafted malformed/odd address texts; all pairs and sampled triples of grid "
         "rectangles (with sheet mixes) under & and **; relative R1C1 offsets -2..2 around 9 anchors and sampled "
-        "large offsets; a case is non-trivial when it is a distinct (entry, arguments) pair")
+        "large offsets; whole-column / whole-row ranges (0 = no limit), the forms the operators produce from them "
+        "and rectangles reaching the sheet's last row/column as operands of &, **, in, the printers and the parser; "
+        "R1C1 spellings (bare/absolute/relative components; cells, R..C..:R..C.., R..:R.., C..:C..) from 9 anchors; "
+        "a case is non-trivial when it is a distinct (entry, arguments) pair")
     R = Runner(ctx)
 
     # ---------------------------------------------------------------- A. columns
@@ -205,7 +326,9 @@ def run(ctx):
     # unbounded column / row ranges and degenerate corners (correspondence only)
     odd_specs = [('', 1, 0, 2, 0), ('S', 3, 0, 3, 0), ('', 0, 1, 0, 2), ('S', 0, 5, 0, 5), ('', 2, 2, 1, 1),
                  ('', 1, 1, 16384, 1048576), ('', 1, 5, 16384, 5), ('', 18278, 1, 18278, 2), ('', 0, 0)]
-    for spec in addr_specs + odd_specs:
+    unb, produced, edge = unbounded_pool(rng, ctx.n(6, 60))
+    unb_specs = [(rng.choice(['', 'S', 'My Data', "it's"]),) + rc for rc in unb + produced]
+    for spec in addr_specs + odd_specs + unb_specs:
         R.add('prints', (spec,), lambda spec=spec: (lambda o: (
             o.address, o.quoted_address, o.abs_address, o.coordinate, o.abs_coordinate))(build(spec)))
         R.add('size', (spec,), lambda spec=spec: tuple(build(spec).size))
@@ -213,6 +336,19 @@ def run(ctx):
 
     # ---------------------------------------------------------------- C. parsing
     texts = []          # (text, sheet kw, anchor)
+    for spec in unb_specs:
+        o = build(spec)
+        sh = AddressCell.quote_sheet(spec[0])
+        for t in (o.address, o.quoted_address, o.abs_address, o.coordinate, o.abs_coordinate,
+                  f"{sh}!${o.start.coordinate}:${o.end.coordinate}", f"${o.start.coordinate}:${o.end.coordinate}"):
+            texts.append((t, '', None))
+    spellings = gen_spellings(rng, ctx.n(250, 4000))
+    for i, sp in enumerate(spellings):
+        for (ac, ar) in (ANCHORS if i < 16 else [rng.choice(ANCHORS)]):
+            texts.append((spelling_text(sp), '', (ar, ac)))
+        if i % 10 == 0:
+            texts.append(('Sheet 1!' + spelling_text(sp), '', (5, 3)))
+            texts.append((spelling_text(sp), 'S', None))
     for spec in addr_specs + odd_specs:
         o = build(spec)
         for t in (o.address, o.quoted_address, o.abs_address):
@@ -285,6 +421,12 @@ def run(ctx):
         R.add('resolve', (spec,), lambda spec=spec: build(spec).resolve_range)
         R.add('contains', (spec, ('', 1, 1)), lambda spec=spec: build(('', 1, 1)) in build(spec))
     R.add('contains', (('', 1, 1), ('', 1, 1, 2, 2)), lambda: build(('', 1, 1, 2, 2)) in build(('', 1, 1)))
+    for spec in unb_specs:
+        R.add('resolve', (spec,), lambda spec=spec: build(spec).resolve_range, kind='resolve:unbounded')
+        for (c, r) in [(1, 1), (2, 2), (3, MAX_ROW), (MAX_COL, 5), (MAX_COL, MAX_ROW),
+                       (rng.randrange(1, MAX_COL + 1), rng.randrange(1, MAX_ROW + 1))]:
+            x = (spec[0], c, r)
+            R.add('contains', (spec, x), lambda spec=spec, x=x: build(x) in build(spec), kind='contains:unbounded')
 
     # ---------------------------------------------------------------- E. & and **
     ops = (('inter', lambda a, b: a & b), ('union', lambda a, b: a ** b))
@@ -305,6 +447,29 @@ def run(ctx):
             for nm, f in ops:
                 R.add(nm, (a, b), lambda a=a, b=b, f=f: f(build(a), build(b)), kind=nm + ':unbounded')
                 R.add(nm, (b, a), lambda a=a, b=b, f=f: f(build(b), build(a)), kind=nm + ':unbounded')
+    upool = unb + produced + edge
+    for _ in range(ctx.n(600, 12000)):
+        ra = rng.choice(unb + produced)
+        rb = rng.choice(upool + rects[::5])
+        sa, sb = rng.choice(sheet_mix), rng.choice(sheet_mix)
+        a, b = (sa,) + ra, rect_spec(sb, *rb) if 0 not in rb else (sb,) + rb
+        if rng.random() < 0.5:
+            a, b = b, a
+        for nm, f in ops:
+            R.add(nm, (a, b), lambda a=a, b=b, f=f: f(build(a), build(b)), kind=nm + ':unbounded')
+    utriples = [((1, 0, 3, 0), (5, MAX_ROW, 5, MAX_ROW), (6, 1, 6, 1))]
+    for _ in range(ctx.n(500, 10000)):
+        t = [rng.choice(upool + rects[::5]) for _ in range(3)]
+        t[rng.randrange(3)] = rng.choice(unb + produced)
+        utriples.append(tuple(t))
+    for (ra, rb, rcc) in utriples:
+        sh = rng.choice(['', 'S'])
+        a, b, c = ((sh,) + rc if 0 in rc else rect_spec(sh, *rc) for rc in (ra, rb, rcc))
+        for nm, f in ops:
+            R.add(nm + '_l', (a, b, c), lambda a=a, b=b, c=c, f=f: f(f(build(a), build(b)), build(c)),
+                  kind=nm + '_l:unbounded')
+            R.add(nm + '_r', (a, b, c), lambda a=a, b=b, c=c, f=f: f(build(a), f(build(b), build(c))),
+                  kind=nm + '_r:unbounded')
     for e in ('#NULL!', '#VALUE!', '#REF!'):
         for nm, f in ops:
             R.add(nm, (('', 1, 1, 2, 2), e), lambda e=e, f=f: f(build(('', 1, 1, 2, 2)), e), kind=nm + ':error')
@@ -354,6 +519,8 @@ def run(ctx):
     R.run()
 
     oracle(ctx, cells, rects, rects_big, triples)
+    oracle_spellings(ctx, spellings)
+    oracle_unbounded(ctx, unb, produced, edge, rects, utriples)
 
 
 # ------------------------------------------------------------------- oracle
@@ -546,3 +713,180 @@ def oracle(ctx, cells, rects, rects_big, triples):
                 ctx.violation(dict(case, args=[ac, ar, dr1, dc1]), "offset leaves the sheet", impl=descr(x))
             if x.address_at_offset(dr2, dc2) != a.address_at_offset(dr1 + dr2, dc1 + dc2):
                 ctx.violation(dict(case, args=[ac, ar, dr1, dc1, dr2, dc2]), "offsets do not compose additively")
+
+
+def oracle_spellings(ctx, spellings):
+    """Every unambiguous R1C1 spelling denotes the address computed by offset arithmetic (written
+    independently of the model: comp_val / spelling_want above)."""
+    from pycel.excelutil import AddressRange
+    rng = ctx.rng
+    for i, sp in enumerate(spellings):
+        shapes = [tuple(k == 'absent' for k in it) for it in sp]
+        if len(sp) == 2 and shapes[0] != shapes[1] or (len(sp) == 1 and any(shapes[0])):
+            continue                                   # R:C, R1C1:R2 ... are not references
+        if not spelling_unambiguous(sp):
+            ctx.count(('spell-ambiguous', spelling_text(sp)), kind='oracle:spelling-ambiguous')
+            continue
+        text = spelling_text(sp)
+        for (ac, ar) in (ANCHORS if i < 16 else [rng.choice(ANCHORS), rng.choice(ANCHORS)]):
+            c1, r1, c2, r2 = spelling_want(sp, (ar, ac))
+            if len(sp) == 1 or (0 not in (c1, r1) and (c1, r1) == (c2, r2)):
+                want = build(('S', c1, r1))
+            else:
+                want = build(('S', c1, r1, c2, r2))
+            ctx.count(('spelling', text, ac, ar), kind='oracle:spellings')
+            got = run_impl(lambda: descr(AddressRange.create('S!' + text, cell=anchor_obj((ar, ac)))))
+            if got != ('ok', descr(want)):
+                ctx.violation(dict(call='spelling', args=[text, ac, ar]),
+                              "an R1C1 spelling does not denote the address given by offset arithmetic",
+                              impl=got, expected=descr(want))
+
+
+def oracle_unbounded(ctx, unb, produced, edge, rects, utriples):
+    """The property's statement on whole-column / whole-row operands, with a range read as its cells clipped
+    to the sheet (A:C = A1:C1048576).  Deviations caused by the 0-coordinate arithmetic are soft (see
+    soft_violation); anything proved for these operands (commutativity, plain/quoted round trip) is hard."""
+    from pycel.excelutil import AddressCell, AddressRange
+    rng = ctx.rng
+    FID = 'C11-unbounded-algebra'
+
+    def mk(rc):
+        return build(('S',) + tuple(rc)) if 0 in rc else build(rect_spec('S', *rc))
+
+    def raw(thunk):
+        try:
+            return ('ok', thunk())
+        except Exception as e:   # noqa: BLE001
+            return ('raise', type(e).__name__)
+
+    def den(o):
+        if isinstance(o, AddressCell):
+            return (o.col_idx, o.row, o.col_idx, o.row)
+        c1, r1, c2, r2 = o.start.col_idx, o.start.row, o.end.col_idx, o.end.row
+        if 0 in (c1, c2):
+            c1, c2 = 1, MAX_COL
+        if 0 in (r1, r2):
+            r1, r2 = 1, MAX_ROW
+        return (c1, r1, c2, r2)
+
+    def unb_axis(o, i):
+        return not isinstance(o, AddressCell) and 0 in ((o.start.col_idx, o.end.col_idx) if i == 0 else (o.start.row, o.end.row))
+
+    def inter(*ds):
+        c1 = max(d[0] for d in ds); r1 = max(d[1] for d in ds)
+        c2 = min(d[2] for d in ds); r2 = min(d[3] for d in ds)
+        return None if c2 < c1 or r2 < r1 else (c1, r1, c2, r2)
+
+    def union(*ds):
+        return (min(d[0] for d in ds), min(d[1] for d in ds), max(d[2] for d in ds), max(d[3] for d in ds))
+
+    def same_cells(got, want):
+        """got: ('ok', object) ; want: clipped rectangle or None"""
+        if got[0] != 'ok':
+            return False
+        o = got[1]
+        return (o == '#NULL!') if want is None else (not isinstance(o, str) and den(o) == want)
+
+    def reparse(case, got):
+        if got[0] == 'ok' and not isinstance(got[1], str):
+            back = raw(lambda: AddressRange(got[1].address))
+            if back != ('ok', got[1]):
+                soft_violation(ctx, FID, dict(case, call='result-roundtrip', cls='unbounded-algebra'),
+                               "the result of an operator prints to text that does not parse back to it",
+                               impl=repr(back), expected=got[1].address)
+
+    # ---- round trip of the parsed forms
+    for rc in unb:
+        for s in ('S', 'My Data'):
+            a = build((s,) + rc)
+            for form in ('address', 'quoted_address', 'abs_address'):
+                text = getattr(a, form)
+                ctx.count(('urt', form, s, rc), kind='oracle:unbounded:roundtrip')
+                back = run_impl(lambda: descr(AddressRange(text)))
+                if back == ('ok', descr(a)) or (form == 'address' and ' ' in s):
+                    continue          # (the plain form of a sheet name with a space is not re-readable: quoted is)
+                case = dict(call='roundtrip', args=[form, s, list(rc)])
+                if form == 'abs_address':
+                    soft_violation(ctx, 'C11-unbounded-abs-form', dict(case, cls='unbounded-abs-form'),
+                                   f"{form} {text!r} does not parse back to the same address",
+                                   impl=back, expected=descr(a))
+                else:
+                    ctx.violation(case, f"{form} {text!r} does not parse back to the same address",
+                                  impl=back, expected=descr(a))
+    # ---- contains = membership of the clipped cells
+    for rc in unb + produced:
+        a = mk(rc)
+        d = den(a)
+        for (c, r) in [(1, 1), (2, 2), (3, MAX_ROW), (MAX_COL, 5), (MAX_COL, MAX_ROW),
+                       (rng.randrange(1, MAX_COL + 1), rng.randrange(1, MAX_ROW + 1))]:
+            ctx.count(('ucontains', rc, c, r), kind='oracle:unbounded:contains')
+            got = raw(lambda: AddressCell((c, r, c, r), sheet='S') in a)
+            want = d[0] <= c <= d[2] and d[1] <= r <= d[3]
+            if got != ('ok', want):
+                soft_violation(ctx, FID, dict(call='contains', args=[list(rc), c, r], cls='unbounded-algebra'),
+                               "containment disagrees with the cells of the range", impl=got, expected=want)
+    # ---- pairs
+    pool = unb + produced + edge + rects[::5]
+    pairs = [(ra, rng.choice(pool)) for ra in unb + produced for _ in range(3)]
+    pairs += [(ra, ra) for ra in unb + produced]
+    pairs += [((1, 0, 3, 0), (2, MAX_ROW, 2, MAX_ROW)), ((1, 0, 3, 0), (2, 1, 2, MAX_ROW)), ((1, 0, 3, 0), (0, 2, 0, 5))]
+    for ra, rb in pairs:
+        a, b = mk(ra), mk(rb)
+        ctx.count(('upair', ra, rb), kind='oracle:unbounded:pairs')
+        case = dict(call='pair', args=[list(ra), list(rb)], cls='unbounded-algebra')
+        i_ab, i_ba = raw(lambda: a & b), raw(lambda: b & a)
+        u_ab, u_ba = raw(lambda: a ** b), raw(lambda: b ** a)
+        if i_ab != i_ba or u_ab != u_ba:
+            ctx.violation(dict(case, call='commute', cls='commute'), "operator is not commutative",
+                          impl=repr([i_ab, i_ba, u_ab, u_ba]))
+        if not same_cells(i_ab, inter(den(a), den(b))):
+            # the one known cause: the last column / row is dropped on an axis where exactly one operand is unbounded
+            da, db = list(den(a)), list(den(b))
+            for lo, hi, mx in ((0, 2, MAX_COL), (1, 3, MAX_ROW)):
+                if unb_axis(a, lo) != unb_axis(b, lo):
+                    da[hi], db[hi] = min(da[hi], mx - 1), min(db[hi], mx - 1)
+            if same_cells(i_ab, inter(da, db)):
+                soft_violation(ctx, FID, dict(case, call='inter'), "intersection is not the common cells / #NULL!",
+                               impl=repr(i_ab), expected=inter(den(a), den(b)))
+            else:
+                ctx.violation(dict(case, call='inter', cls='unbounded-inter'),
+                              "intersection is not the common cells / #NULL! (and not the known last-row/column loss)",
+                              impl=repr(i_ab), expected=inter(den(a), den(b)))
+        if not same_cells(u_ab, union(den(a), den(b))):
+            ctx.violation(dict(case, call='union', cls='unbounded-union'), "union is not the least bounding rectangle",
+                          impl=repr(u_ab), expected=union(den(a), den(b)))
+        if ra == rb and (i_ab != ('ok', a) or u_ab != ('ok', a)):
+            if same_cells(i_ab, den(a)) and same_cells(u_ab, den(a)):
+                soft_violation(ctx, FID, dict(case, call='idempotent'), "a op a is not a", impl=repr([i_ab, u_ab]))
+            else:
+                ctx.violation(dict(case, call='idempotent', cls='unbounded-idem'), "a op a has not the cells of a",
+                              impl=repr([i_ab, u_ab]))
+        reparse(case, i_ab)
+        reparse(case, u_ab)
+    # ---- triples
+    for (ra, rb, rcc) in utriples[:: max(1, len(utriples) // ctx.n(300, 3000))]:
+        a, b, c = mk(ra), mk(rb), mk(rcc)
+        ctx.count(('utriple', ra, rb, rcc), kind='oracle:unbounded:triples')
+        case = dict(call='triple', args=[list(ra), list(rb), list(rcc)], cls='unbounded-algebra')
+        for nm, want, l, r in (('inter', inter(den(a), den(b), den(c)), lambda: (a & b) & c, lambda: a & (b & c)),
+                               ('union', union(den(a), den(b), den(c)), lambda: (a ** b) ** c, lambda: a ** (b ** c))):
+            gl, gr = raw(l), raw(r)
+            if gl != gr and nm == 'union':
+                # proved exact when no bounded axis of an operand reaches the last column / row
+                if all(unb_axis(o, 0) or den(o)[2] < MAX_COL for o in (a, b, c)) and \
+                        all(unb_axis(o, 1) or den(o)[3] < MAX_ROW for o in (a, b, c)):
+                    ctx.violation(dict(case, call='union-assoc', cls='unbounded-union'),
+                                  "** is not associative (away from the sheet's last column / row)", impl=repr([gl, gr]))
+                else:
+                    soft_violation(ctx, FID, dict(case, call='union-assoc'), "** is not associative", impl=repr([gl, gr]))
+            if not same_cells(gl, want) or not same_cells(gr, want):
+                if nm == 'union':
+                    ctx.violation(dict(case, call='union3', cls='unbounded-union'),
+                                  "three-way union has not the cells of the least bounding rectangle",
+                                  impl=repr([gl, gr]), expected=want)
+                else:
+                    soft_violation(ctx, FID, dict(case, call='inter3'),
+                                   "three-way result differs from the set-theoretic one", impl=repr([gl, gr]), expected=want)
+            if nm == 'inter' and gl != gr:
+                ctx.violation(dict(case, call='inter-assoc', cls='unbounded-inter'), "& is not associative",
+                              impl=repr([gl, gr]))
